@@ -22,6 +22,9 @@ package PKG
 import (
 	"encoding/json"
 	"fmt"
+	"go/constant"
+	"go/token"
+	"go/types"
 	"os"
 )
 
@@ -102,6 +105,9 @@ func verifObserve(tag string, v any) {}
 func verifStrEq(a, b string) bool     { return a == b }
 
 var _ = fmt.Sprint
+var _ = constant.MakeInt64
+var _ = token.NoPos
+var _ types.Type
 `
 
 // RTSource renders the runtime overlay file (intrinsics + text models) for a package.
@@ -115,5 +121,5 @@ func RTSource(pkgName string) (string, error) {
 	if i := strings.Index(m, "\npackage models\n"); i >= 0 {
 		m = m[i+len("\npackage models\n"):]
 	}
-	return strings.ReplaceAll(rtIntrinsics, "package PKG", "package "+pkgName) + "\n// ---- text models (copied from /verif/models/models.go)\n" + m, nil
+	return strings.ReplaceAll(rtIntrinsics, "package PKG", "package "+pkgName) + rtTypes + "\n// ---- text models (copied from /verif/models/models.go)\n" + m, nil
 }
